@@ -16,6 +16,7 @@ the reference on the proved fragment.
 -/
 import NanoVerif.Model.Sem
 import NanoVerif.Model.Vm
+import NanoVerif.Lemmas.SemCfg
 
 namespace NanoVerif.C02
 open NanoVerif Gen
@@ -198,5 +199,40 @@ theorem first_argument_fault_stops (cfg : Sem.Cfg) (p : Program) (fuel : Nat) (l
 /-- non-vacuity: `(and false (println 1))` prints nothing, `(and true (== 1 1))` is true -/
 example : Sem.evalExpr Sem.vmCfg [] 5 [] {} (.prefixOp .T_AND [.bool false, .call "println" [.num 1]]) = .ok (.bool false, {}) := by
   simp [Sem.evalExpr]
+
+/-! ### the reference defines one outcome per program
+
+"The defined semantics" is a function of the program only if the bound used to compute it does not matter.
+`outcome_stable`: once a run of the reference is decided (it did not stop for want of fuel), every larger
+fuel gives the same observation - for every construct of the reference, either configuration.
+`outcome_unique`: two decided runs of one program give the same observation, whatever their fuels. -/
+
+theorem outcome_stable (c : Sem.Cfg) (p : Program) (fuel : Nat)
+    (h : (Sem.runProgram c p fuel).res ≠ .fault .fuel) (k : Nat) :
+    Sem.runProgram c p (fuel + k) = Sem.runProgram c p fuel :=
+  Sem.runProgram_fuel_mono p c fuel h k
+
+theorem outcome_unique (c : Sem.Cfg) (p : Program) (n m : Nat)
+    (hn : (Sem.runProgram c p n).res ≠ .fault .fuel) (hm : (Sem.runProgram c p m).res ≠ .fault .fuel) :
+    Sem.runProgram c p n = Sem.runProgram c p m := by
+  have h1 := outcome_stable c p n hn m
+  have h2 := outcome_stable c p m hm n
+  rw [← h1, Nat.add_comm n m, h2]
+
+/-- the same below whole programs: an expression's value and state, once decided, do not depend on the fuel -/
+theorem expr_stable (c : Sem.Cfg) (p : Program) (fuel : Nat) (loc : Sem.Locals) (g : Sem.GState) (e : Expr)
+    (r : Sem.SVal × Sem.GState) (h : Sem.evalExpr c p fuel loc g e = .ok r) :
+    Sem.evalExpr c p (fuel + 1) loc g e = .ok r := by
+  rcases (Sem.fuelAll p c fuel).expr loc g e with h1 | ⟨g', h1⟩
+  · rw [← h1]; exact h
+  · rw [h1] at h; cases h
+
+/-- ... and a statement list's effect likewise -/
+theorem stmts_stable (c : Sem.Cfg) (p : Program) (fuel : Nat) (loc : Sem.Locals) (g : Sem.GState) (ss : List Stmt)
+    (r : Sem.Flow × Sem.Locals × Sem.GState) (h : Sem.execStmts c p fuel loc g ss = .ok r) :
+    Sem.execStmts c p (fuel + 1) loc g ss = .ok r := by
+  rcases (Sem.fuelAll p c fuel).stmts loc g ss with h1 | ⟨g', h1⟩
+  · rw [← h1]; exact h
+  · rw [h1] at h; cases h
 
 end NanoVerif.C02
